@@ -1192,7 +1192,7 @@ Proof.
                 (one_of a [s "public"; s "private"; s "protected"] = false) ->
                 seqb (firstn 6 a) (s "intent") = false -> dim_re a = false -> seqb a (s "parameter") = false ->
                 process_attribs st [v] = Ok [set_attribs v (v_attribs v ++ [a])]).
-  { intros st E A B C D. unfold process_attribs. cbn [mapM]. rewrite E. cbn [dict_get]. rewrite seqb_refl.
+  { intros st E A B C D. unfold process_attribs. rewrite E. cbn [process_go dict_get]. rewrite seqb_refl.
     cbn [fold_left]. now rewrite (apply_text_attr _ v a A B C D). }
   destruct Ha as [<-|[<-|Ha]].
   - split; [|reflexivity]. eexists. split; [apply (record_dimlike _ _ (s "allocatable")); try reflexivity; exact W|].
